@@ -208,7 +208,10 @@ fn gen_impl_delegation_trait_defs(
                 if let Some(first_arg) = trait_fn.entrait_sig.sig.inputs.first_mut() {
                     if let syn::FnArg::Receiver(receiver) = first_arg {
                         // `&self`, or its typed spelling `self: &Self`
-                        let reference = match (&receiver.reference, receiver.ty.as_ref()) {
+                        let reference = match (
+                            &receiver.reference,
+                            generics::peel_type(receiver.ty.as_ref()),
+                        ) {
                             (Some(reference), _) => Some(reference.clone()),
                             (None, syn::Type::Reference(ty)) => {
                                 Some((ty.and_token, ty.lifetime.clone()))
